@@ -181,7 +181,9 @@ def test_matches():
     expect(m("json", None, None) and m("json", M, None) and m("json", None, "null"), "null/missing/None")
     expect(not m("json", None, '"null"') and not m("json", 0, None), "null vs values")
     expect(not m("json", True, "1") and not m("json", 1, "true") and m("json", 0, "0.0") and m("json", -1.5, "-1.5"), "bool vs number")
-    expect(m("json", [1, {"a": None}], [1, '{"a":null}']) and not m("json", ["s"], ['"s"']), "native list results")
+    expect(m("json", [1, {"a": None}], [1, '{"a":null}']) and m("json", ["s"], ["s"]) and m("json", ["s"], ['"s"']), "native list results")
+    expect(m("json", [True, {}], ["true", "{}"]) and not m("json", [True, 0], [1, 0]) and not m("json", ["s"], ["x"]), "native list: JSON text elements")
+    expect(not m("json", [1, 2], [1]) and not m("json", [1], "[2]") and m("json", [], []), "native list: length / value")
     expect(m("text", "Str", "Str") and not m("text", "Str", '"Str"') and not m("text", "1", 1), "text mode")
     expect(m("text", J.JsonText({"a": 1}), '{ "a": 1 }') and not m("text", J.JsonText({"a": 1}), '{"a":2}'), "json text")
     expect(m("text", None, None) and not m("text", None, "null") and not m("text", "", None), "text null")
